@@ -585,6 +585,8 @@ def literal_family(tier, seed):
     values += [
         [T, T], [E_, E_], (T, T), {"a": T, "b": T}, [L, L], {"k": [T, T], "m": (T,)}, [[[[1]]]], [T, [T, (T,)]], {1: L, 2: L},
         [1.5, float("inf")], {"a": Decimal("1")}, [E.A], {IE.ONE},
+        # complex numbers: repr() of a non-finite part is a NAME (`(inf+0j)`, `nanj`), never a literal
+        complex("inf"), complex("nan"), complex(1, float("nan")), complex(0, float("inf")), complex(1, 2), [complex("inf")],
         # long values (the literal exceeds any plausible length cap): a mutable default must be rebuilt per call however long it is
         [0.0] * 400, {f"key{i}": [i] for i in range(120)}, list(range(600)), {i for i in range(500)},
     ]
